@@ -264,10 +264,10 @@ def run(ctx):
     pmcases.tag_inputs(ctx)
     if getattr(ctx, "replay", None):
         return pmcases.replay(ctx, binp, oracle, timeout=2400)
-    msgs, spans = regen(ctx, ["pm_integrand", "pm_simpson"])
+    msgs, spans = regen(ctx, ["pm_integrand", "pm_simpson", "pmsimple"])
     ctx.cov["translated_spans"] = {k: v for k, v in spans.items() if "coincidences" in v["file"] or "integration" in v["file"]}
     for m in msgs:
-        ctx.proof_failures.append(("Gen/PMSimpson.v" if "pm_simpson" in m else "Gen/PMIntegrand.v", "translator", m))
+        ctx.proof_failures.append(("Gen/PMSimpson.v" if "pm_simpson" in m else "Gen/PMSimple.v" if "[generator pmsimple]" in m else "Gen/PMIntegrand.v", "translator", m))
     proved = (not msgs) and prove(ctx, "C05", extra_targets=["Proofs/PMCaseTac.vo"])
     quick = ctx.tier == "quick"
     n_pw, n_pt, n_other = (120, 4, 10) if quick else (1500, 16, 60)
@@ -318,7 +318,11 @@ def run(ctx):
         "peak value 4/Sigma, with walk-off (4/Sigma) sqrt(pi) erf(x)/(2x)": "proved_partial (zero-diffraction idealisation)",
         "the walk-off angle in x is -(1/n) dn/dtheta of the pump": "validated_only (S5: Beam::walkoff_angle vs central differences of the pump index computed in the harness, compared through the predicted peak to 2e-4; the expected peak and shape use the independent value)",
         "default quadrature (Simpson 48) within 3.1e-5 of the exact integral for |ff| <= 4 pi": "proved (Model/PMLimit.v, tied by rule extraction)",
-        "<= 1e-3 for waists >= 2 mm, L <= 20 mm (size of the diffraction corrections)": "validated_only (S5 oracle over the box)"}
+        "<= 1e-3 for waists >= 2 mm, L <= 20 mm (size of the diffraction corrections)": "validated_only (S5 oracle over the box)",
+        "the crate's own approximations phasematch_sinc / phasematch_gaussian (generated, Gen/PMSimple.v): sinc(Delta k_z L/2) x transverse Gaussian, "
+        "modulus <= 1, peak 1, |plane-wave limit| = prefactor x |phasematch_sinc|, same half width (0.193)":
+            "proved (C05_phasematch_sinc_form, C05_plane_wave_limit_is_phasematch_sinc, C05_phasematch_approximations_bounded / _peak, "
+            "C05_gaussian_sinc_same_half_width); generated = implementation by the interval goals of the wrappers stage run by ./check C03"}
     return finish(ctx, assumptions=[
         "the quantitative 1e-3 bound on the diffraction corrections over the property's box is validated by sampling, not proved",
         "the generated model is tied to Rust by interval-checked pointwise correspondence; binary64 rounding is measured, not proved",
